@@ -123,6 +123,7 @@ func (p *Prog) NoReturn(f *ssa.Function) bool { return f != nil && (p.noReturn[f
 type fact struct {
 	Cond ssa.Value
 	Val  bool
+	At   int // on an enumerated path: index (in the path's block list) of the block whose branch this is
 }
 
 // relSet is a set of canonical relation strings (see relOf).
@@ -244,7 +245,7 @@ func (p *Prog) relsDepth(f *ssa.Function, depth int) map[*ssa.BasicBlock]relSet 
 			}
 			e := out.clone()
 			if ifc != nil && b.Succs[0] != b.Succs[1] {
-				if rs, ok := relOf(fact{ifc.Cond, i == 0}); ok {
+				if rs, ok := relOf(fact{Cond: ifc.Cond, Val: i == 0}); ok {
 					e[rs] = true
 				}
 				for k := range p.condCallFacts(ifc.Cond, i == 0) {
@@ -808,7 +809,7 @@ func (p *Prog) RelsOnEdge(rm map[*ssa.BasicBlock]relSet, pred, succ *ssa.BasicBl
 		if ifc, ok := pred.Instrs[len(pred.Instrs)-1].(*ssa.If); ok && pred.Succs[0] != pred.Succs[1] {
 			for i, s := range pred.Succs {
 				if s == succ {
-					if rs, ok := relOf(fact{ifc.Cond, i == 0}); ok {
+					if rs, ok := relOf(fact{Cond: ifc.Cond, Val: i == 0}); ok {
 						out[rs] = true
 					}
 				}
